@@ -160,6 +160,12 @@ def gen_params(rng: random.Random, idx, tier="quick", profile="mixed", force=Non
     P["fatal_codes"] = profile in ("faults", "mixed") and rng.random() < 0.3
     P["fault_p"]["Fetch"] = rng.choice([0.0, 0.0, 0.05])
     P["fault_p"]["Metadata"] = rng.choice([0.0, 0.0, 0.05])
+    # staggered position lookups: a partition leader (not the coordinator) is down while the first members start and
+    # OffsetFetch replies are slow, so the per-leader committed-offset lookups of one member begin at different times
+    P["stagger"] = None
+    if P["initial_committed"] or rng.random() < 0.2:
+        P["stagger"] = {"leader_down_for": rng.choice([0.2, 0.6, 1.5]), "offset_fetch_delay_p": rng.choice([0.4, 0.8])}
+        P["initial_committed"] = True
     P["kill_at_event"] = None      # {"m": .., "k": ..}: kill member m at loop event k (crash-point enumeration)
     P["stop_at_event"] = None
     if force:
@@ -224,6 +230,9 @@ def run_history(P):
                   for a in GROUP_APIS},
                "Fetch": ["drop_before", "lose_reply", "delay", ("error", C.NOT_LEADER_FOR_PARTITION)],
                "Metadata": ["drop_before", "delay"]})
+    if P.get("stagger"):
+        plan.p["OffsetFetch"] = max(plan.p.get("OffsetFetch", 0.0), P["stagger"]["offset_fetch_delay_p"])
+        plan.kinds["OffsetFetch"] = ["delay", "delay", "delay"] + plan.kinds["OffsetFetch"]
     if P.get("fatal_codes"):
         extra = {"JoinGroup": [C.GROUP_AUTHORIZATION_FAILED, C.INCONSISTENT_GROUP_PROTOCOL, C.INVALID_SESSION_TIMEOUT],
                  "SyncGroup": [C.GROUP_AUTHORIZATION_FAILED], "Heartbeat": [C.GROUP_AUTHORIZATION_FAILED],
@@ -499,6 +508,18 @@ def run_history(P):
         if P.get("stop_at_event"):
             loop.at_event(P["stop_at_event"]["k"],
                           lambda: asyncio.ensure_future(stop_member(P["stop_at_event"]["m"], "stop_at_event")))
+        if P.get("stagger"):
+            coord = cl.coordinator_for(GROUP, 0)
+            cands = sorted({cl.leaders[(t, p)] for t, n in P["topics"].items() for p in range(n)} - {coord})
+            if cands:
+                b = cl.brokers[rng.choice(cands)]
+                b.go_down()
+                log(None, "broker_down", node=b.node_id, stagger=True)
+
+                def up(b=b):
+                    b.come_up()
+                    log(None, "broker_up", node=b.node_id)
+                loop.call_later(P["stagger"]["leader_down_for"], up)
         plan.enabled = True
         bg = [asyncio.ensure_future(producer()), asyncio.ensure_future(scripted())]
         await asyncio.wait(bg)
